@@ -220,4 +220,58 @@ example : ¬ LogicOk ⟨[⟨"R", [("n", .name "number"), ("m", .name "number")],
   rw [hf] at h2
   cases h2
 
+/-- a guard that `checkTopExpr` lets pass applies every operator, at every depth, to operands of its kind -/
+theorem topExpr_operandsOk (env : Env) (vars : List (String × Ty)) (e : Expr) (line : Nat)
+    (h : (checkTopExpr env vars e).map (atLine line) = some []) : OperandsOk env vars e := by
+  cases hc : checkTopExpr env vars e with
+  | none => simp [hc] at h
+  | some ks =>
+    have hk : ks = [] := by
+      cases ks with
+      | nil => rfl
+      | cons k ks => simp [hc, atLine] at h
+    subst hk
+    unfold checkTopExpr at hc
+    split at hc
+    · simp at hc
+    · exact checkExpr_operandsOk env vars e hc
+
+/-- AN OPERAND OF THE WRONG KIND - a non-number under + - * /, neither two numbers nor two strings under
+    < > <= >=, a non-boolean under And / Or - anywhere inside the guard of a While Loop, at any depth of the
+    expression (the catalogue class `expr_ill_typed_operand`, as far as the checker's own notions of number /
+    string / boolean go: findings K7a / K7b are what these notions admit) -/
+theorem ill_typed_operand_in_while_guard (p : Prog) (errs : List Err) (h : validate p = some errs) (t : Task)
+    (e : Expr) (body : List Stmt) (line : Nat) (hn : Nested p t (.wloop e body line))
+    (hb : ¬ OperandsOk (mkEnv p) t.variables e) : errs ≠ [] := by
+  apply nested_fault_reported p errs h t _ hn
+  intro hs
+  simp only [checkStmt] at hs
+  obtain ⟨a, b, _, hb2, hab⟩ := optAppend_some hs
+  have hbn : b = [] := (List.append_eq_nil_iff.mp hab.symm).2
+  subst hbn
+  exact hb (topExpr_operandsOk _ _ e line hb2)
+
+/-- the same for the guard of a Condition -/
+theorem ill_typed_operand_in_condition (p : Prog) (errs : List Err) (h : validate p = some errs) (t : Task)
+    (e : Expr) (ps fs : List Stmt) (line : Nat) (hn : Nested p t (.cond e ps fs line))
+    (hb : ¬ OperandsOk (mkEnv p) t.variables e) : errs ≠ [] := by
+  apply nested_fault_reported p errs h t _ hn
+  intro hs
+  simp only [checkStmt] at hs
+  obtain ⟨a, b, _, hb2, hab⟩ := optAppend_some hs
+  have hbn : b = [] := (List.append_eq_nil_iff.mp hab.symm).2
+  subst hbn
+  exact hb (topExpr_operandsOk _ _ e line hb2)
+
+/-- not vacuous: with `s : string`, `(r.s + 1) > 2` is not `OperandsOk` (the sum, two levels down) -/
+example : ¬ OperandsOk ⟨[⟨"R", [("s", .name "string"), ("m", .name "number")], 1⟩], []⟩ [("r", .name "R")]
+    (.bin ">" (.paren (.bin "+" (.path ["r", "s"]) (.lit (.num 1 false)))) (.lit (.num 2 false))) := by
+  intro h
+  simp only [OperandsOk] at h
+  have h2 := (h.1.2.2.1 (by decide)).1
+  have hf : exprIsNumber ⟨[⟨"R", [("s", .name "string"), ("m", .name "number")], 1⟩], []⟩ [("r", .name "R")]
+      (.path ["r", "s"]) = some false := by decide +kernel
+  rw [hf] at h2
+  cases h2
+
 end Pfdl.Props.C10
